@@ -383,6 +383,29 @@ def c17f(ctx):
                   'the %s excludes the request when either axis resolution is beyond it (%d rows)' % (label, len(tab.rows)), fn,
                   fail='the %s is tested against %s only%s: a request with non-square pixels that is out of range on one axis is still sent upstream' % (
                       label, sorted(kinds) or ['nothing'], '' if strict else ' (comparison on the wrong side of the bound)'))
+    ctx.check(_tolerance_ok(fn, tab, info, defs), 'ResolutionRange.contains:min-tolerance',
+              'the coarse bound is compared as min_res + 1e-6: a resolution that equals the bound up to float noise is treated alike '
+              'however the request was cut (single tile / meta tile / buffered)', fn,
+              fail='the coarse bound is compared without its float tolerance: the same tile is refused when requested alone and rendered when it '
+                   'is part of a meta tile (resolutions recomputed from different bounding boxes differ in the last bits)')
+
+
+def _tolerance_ok(fn, tab, info, defs):
+    """the coarse bound is compared with a small positive tolerance added: self.min_res + <const>, 0 < const <= 1e-3"""
+    ok = False
+    for a, (which, kind, below) in info.items():
+        if which != 'min':
+            continue
+        at = tab.atom_objs[a]
+        bound = at.right if below else at.left
+        form = resolve1(bound, defs)
+        good = isinstance(form, ast.BinOp) and isinstance(form.op, ast.Add) and \
+            any(unparse(s_) == 'self.min_res' for s_ in (form.left, form.right)) and \
+            any(isinstance(const_value(s_), float) and 0 < const_value(s_) <= 1e-3 for s_ in (form.left, form.right))
+        if not good:
+            return False
+        ok = True
+    return ok
 
 
 def _closed(fn, e):
@@ -420,3 +443,77 @@ def c17g(ctx):
                            'each other\'s bbox/size/srs before the URL is built' % f.short)
     if n < 3:
         raise Undecided('only %d request-template users found' % n)
+
+
+GATES = ['coverage', 'res_range', 'supported_srs', 'supported_formats']
+
+
+@rule('C17.h', floor=8)
+def c17h(ctx):
+    """a source that is merged with its neighbour into one upstream request keeps its gates: WMSSource._is_compatible refuses the
+    merge when the two sources differ in coverage, resolution range, supported SRS or supported formats, and
+    WMSSource.combined_layer hands each of them (and the forwarded-dimension list) on to the merged source -- otherwise a source
+    that would not be contacted on its own is contacted as part of the merged request"""
+    fn = ctx.fn(SW + ':WMSSource._is_compatible')
+    tab = ctx.rows(table(fn.node.body, ret_kind, bool_returns=True))
+    for attr in GATES:
+        atoms = [a for a in tab.atoms if tab.atom_objs[a].op == '==' and
+                 {unparse(tab.atom_objs[a].left), unparse(tab.atom_objs[a].right)} == {'self.' + attr, 'other.' + attr}]
+        bad = []
+        if len(atoms) == 1:
+            bad = [asg for asg, out, _ in tab.assignments() if not asg[atoms[0]] and out == 'return True']
+        ctx.check(len(atoms) == 1 and not bad, 'WMSSource._is_compatible:gate-%s' % attr,
+                  'sources that differ in %s are not merged into one upstream request' % attr, fn,
+                  fail='two WMS sources that differ in %s can be merged into one upstream request: the stricter one is contacted for requests '
+                       'it is configured not to answer' % attr)
+    cl = ctx.fn(SW + ':WMSSource.combined_layer')
+    news = [x for x in cl.walk() if is_call(x, 'WMSSource')]
+    if not news:
+        raise Undecided('WMSSource.combined_layer: constructor call of the merged source not found')
+    for x in news:
+        for attr in GATES + ['fwd_req_params']:
+            v = keyword(x, attr)
+            ok = v is not None and cl.ctext(v) == 'self.' + attr
+            ctx.check(ok, 'WMSSource.combined_layer:keeps-%s' % attr, 'the merged source is built with %s of the sources it replaces' % attr, cl, x,
+                      fail='the merged source is built with %s=%s: the gate of the merged sources is lost (they are contacted outside of it)' % (
+                          attr, unparse(v) if v is not None else '<default>'))
+
+
+@rule('C17.i', floor=2)
+def c17i(ctx):
+    """the coverage a source is gated with is the configured one, also after it was transformed into another SRS: a re-projected polygon
+    keeps its interior rings (holes stay holes).  A polygon rebuilt from the exterior ring alone is larger than the configured
+    coverage: requests inside an exclusion zone reach the source"""
+    fn = ctx.fn('mapproxy/util/geom.py:transform_polygon')
+    if len(fn.params) < 2:
+        raise Undecided('transform_polygon: unexpected signature')
+    transf, poly = fn.params[:2]
+    rets = [fn.canon.expr(r.value) for r in returns_of(fn.node) if r.value is not None]
+    ok = bool(rets)
+    for f in rets:
+        good = isinstance(f, ast.Call) and simple_name(f) == 'Polygon' and len(f.args) >= 2
+        if good:
+            ext, ints = f.args[0], f.args[1]
+            good = is_call(ext, transf) and '%s.exterior' % poly in unparse(ext) and \
+                isinstance(ints, (ast.ListComp, ast.GeneratorExp)) and unparse(ints.generators[0].iter) == '%s.interiors' % poly and is_call(ints.elt, transf)
+        ok = ok and good
+    ctx.check(ok, 'transform_polygon:keeps-interior-rings', 'the transformed polygon is Polygon(transf(exterior), [transf(ring) for ring in interiors])', fn,
+              fail='the transformed polygon is built without the interior rings: the holes of a coverage are filled when it is re-projected')
+    tm = ctx.fn('mapproxy/util/geom.py:transform_multipolygon')
+    ok = any(is_call(x, 'transform_polygon') for x in tm.walk())
+    ctx.check(ok, 'transform_multipolygon:per-polygon', 'every part of a multi polygon goes through transform_polygon', tm)
+
+
+@rule('C17.j', floor=1)
+def c17j(ctx):
+    """shared rule, re-evaluated for this property: sources are merged into one upstream request only when they have the same coverage
+    object comparison `self.coverage != other.coverage` (C14.c: the whole geometry, not its bounding box)"""
+    from ..engine import run_property
+    sub = run_property(ctx.repo, 'C14', ctx.tier, only={'C14.c'})
+    for er in sub.errors:
+        raise Undecided('shared rule %s: %s' % er)
+    for o in sub.obs:
+        if 'coverage' not in o.construct:
+            continue
+        (ctx.ok if o.status == 'ok' else ctx.bad)('%s:%s' % (o.rule, o.construct), o.msg, o.where)
+    ctx.stats['functions'] |= sub.stats['functions']
